@@ -21,9 +21,6 @@ All offsets are relative to the node and shifted on composition.
 """
 import re
 
-MARK = 'LATEXXXERROR'
-
-
 class N:
     def __init__(self, src='', ev=(), det=(), spans=(), sws=None, unk=(), hid=(), mono=True,
                  diag=()):
@@ -305,7 +302,8 @@ def theorem(body, env='thm', title='Theorem', opt=None):
                  ev_order=[esc(title) + r'\(', 1, r'\)\.', 0])
 
 
-def proof(body, opt=None, word='Proof'):
+def proof(body, opt=None, word=None):
+    word = word or PROOFNAME.get('en', 'Proof')
     if opt is None:
         return place('\\begin{{proof}}{0}\\end{{proof}}', [body], ev_order=[esc(word) + r'\.', 0])
     return place('\\begin{{proof}}[{1}]{0}\\end{{proof}}', [body, opt], ev_order=[1, r'\.', 0])
@@ -364,14 +362,36 @@ def gls(name='gls', text='alpha beta'):
 
 # ------------------------------------------------------------------ maths
 
-INLINE = {'en': ['B-B-B', 'C-C-C', 'D-D-D', 'E-E-E', 'F-F-F', 'G-G-G'],
-          'de': ['B-B-B', 'C-C-C', 'D-D-D', 'E-E-E', 'F-F-F', 'G-G-G'],
-          'ru': ['Б-Б-Б', 'В-В-В', 'Г-Г-Г', 'Д-Д-Д', 'Е-Е-Е', 'Ж-Ж-Ж']}
-DISPLAY = {'en': ['U-U-U', 'V-V-V', 'W-W-W', 'X-X-X', 'Y-Y-Y', 'Z-Z-Z'],
-           'de': ['U-U-U', 'V-V-V', 'W-W-W', 'X-X-X', 'Y-Y-Y', 'Z-Z-Z'],
-           'ru': ['Ц-Ц-Ц', 'Ч-Ч-Ч', 'Ш-Ш-Ш', 'Ы-Ы-Ы', 'Э-Э-Э', 'Ю-Ю-Ю']}
-LANGCH = {'en': ['K-K-K', 'L-L-L', 'M-M-M', 'N-N-N'], 'de': ['K-K-K', 'L-L-L', 'M-M-M', 'N-N-N'],
-          'ru': ['К-К-К', 'Л-Л-Л', 'М-М-М', 'Н-Н-Н']}
+def _load_collections():
+    """placeholder collections, operator words, proof names and the error mark are configuration
+    of YaLafi: they are read from the real parameters.py of the tree under test"""
+    inline, display, langch, opw, proof = {}, {}, {}, {}, {}
+    mark = 'LATEXXXERROR'
+    try:
+        from vf import yal
+        for lang in ('en', 'de', 'ru'):
+            p = yal.parameters.Parameters(lang)
+            lc = p.lang_context
+            inline[lang] = list(lc.math_repl_inline)
+            display[lang] = list(lc.math_repl_display)
+            langch[lang] = list(lc.lang_change_repl)
+            opw[lang] = dict(lc.math_op_text)
+            proof[lang] = lc.proof_name
+            mark = p.mark_latex_error
+    except Exception:          # noqa: documented fall-back (values of the pinned tree)
+        inline = {'en': ['B-B-B', 'C-C-C', 'D-D-D', 'E-E-E', 'F-F-F', 'G-G-G']}
+        inline['de'] = list(inline['en'])
+        inline['ru'] = ['Б-Б-Б', 'В-В-В', 'Г-Г-Г', 'Д-Д-Д', 'Е-Е-Е', 'Ж-Ж-Ж']
+        display = {'en': ['U-U-U', 'V-V-V', 'W-W-W', 'X-X-X', 'Y-Y-Y', 'Z-Z-Z']}
+        display['de'] = list(display['en'])
+        display['ru'] = ['Ц-Ц-Ц', 'Ч-Ч-Ч', 'Ш-Ш-Ш', 'Ы-Ы-Ы', 'Э-Э-Э', 'Ю-Ю-Ю']
+        langch = {'en': ['K-K-K', 'L-L-L', 'M-M-M', 'N-N-N']}
+        langch['de'] = list(langch['en'])
+        langch['ru'] = ['К-К-К', 'Л-Л-Л', 'М-М-М', 'Н-Н-Н']
+    return inline, display, langch, opw, proof, mark
+
+
+INLINE, DISPLAY, LANGCH, OPTEXT, PROOFNAME, MARK = _load_collections()
 
 
 def alt(words):
